@@ -35,8 +35,10 @@ CHECKS = {
         text="Theorems over Z for every configuration admitted by the constructor: exact samples-per-block division and whole PFB windows per "
              "block; for every requested sub-block count the sub-block plan is positive, only the last may be short, and sums to the block; a "
              "block draws spb*nb samples (+ one warm-up window at the start); a recording of n blocks draws n*spb*nb + taps*nb; blocks-per-file "
-             "distribution sums to n; get_block_size yields the requested spectra; duration bracket n*tpb <= obs < (n+1)*tpb over Q. The float "
+             "distribution sums to n; a backend on existing RAW data records min(requested, available) blocks (the input's count when the "
+             "request is omitted, an error when there is neither); get_block_size yields the requested spectra; duration bracket n*tpb <= obs < (n+1)*tpb over Q. The float "
              "expressions (tbin, time_per_block, get_num_blocks) have binary64 twins compared bit for bit with the backend; small recordings "
+             "(synthetic backends, and from_data backends with requests above / equal to / below / without the input's block count) "
              "log every antenna request and are compared with the model's request plan; totals, PKTIDX/PKTSTOP/SCANLEN and clocks are checked "
              "against the exact integers on the implementation.",
         design="3/C20", technique="Coq proof over Z (div/mod, induction over blocks) + PrimFloat kernels + request-log correspondence"),
